@@ -419,6 +419,7 @@ type clauseParam struct {
 	Type types.Type
 	Kind string // "local", "result"
 	Res  int
+	Decl token.Pos // local: position of the declaring identifier (which of several same-named variables)
 }
 
 func (g *genCtx) clauseParams(text string, scope *types.Scope, pos token.Pos, sig *types.Signature, where string) ([]clauseParam, error) {
@@ -461,7 +462,7 @@ func (g *genCtx) clauseParams(text string, scope *types.Scope, pos token.Pos, si
 			continue
 		}
 		// a local variable / parameter / named result
-		cp := clauseParam{Name: name, Type: v.Type(), Kind: "local"}
+		cp := clauseParam{Name: name, Type: v.Type(), Kind: "local", Decl: v.Pos()}
 		if sig != nil {
 			for k := 0; k < sig.Results().Len(); k++ {
 				if sig.Results().At(k) == v {
@@ -485,6 +486,13 @@ func (g *genCtx) emitClause(c *Clause, prefix string, ps []clauseParam) {
 	c.FnSym = fmt.Sprintf("gcvC_%s_%d", prefix, g.n)
 	var parts []string
 	for _, p := range ps {
+		if p.Kind == "local" && p.Decl.IsValid() {
+			if c.ParamPos == nil {
+				c.ParamPos = map[string]string{}
+			}
+			pp := g.p.Fset.Position(p.Decl)
+			c.ParamPos[p.Name] = fmt.Sprintf("%s:%d", pp.Filename, pp.Offset)
+		}
 		parts = append(parts, p.Name+" "+types.TypeString(p.Type, g.qualifier))
 	}
 	ret := "bool"
